@@ -83,8 +83,13 @@ class Check:
 
     def floor(self, what, count, minimum):
         if count < minimum:
-            raise AnalysisError('%s: instance count %d below the hand-confirmed floor %d (%s)'
-                                % (self.pid, count, minimum, what))
+            if self.violations:
+                # instances that could not be completed because of an already reported violation explain a lower
+                # count; the run fails with that violation (exit 1), not with an analysis error that would hide it
+                self.notes.append('%s: %d instances (floor %d) - lower because of the reported violation(s)' % (what, count, minimum))
+            else:
+                raise AnalysisError('%s: instance count %d below the hand-confirmed floor %d (%s)'
+                                    % (self.pid, count, minimum, what))
         self.analysed[what] = count
 
     def need(self, cond, msg):
